@@ -47,13 +47,15 @@ func UnpadMessage(padded []byte) ([]byte, error) {
 		return nil, fmt.Errorf("invalid varint prefix in padded message: %d", varintLen)
 	}
 
-	end := uint64(varintLen) + msgLen
-	if end > uint64(len(padded)) {
+	// Compare against the bytes that follow the prefix: adding the (untrusted) length to the
+	// prefix size first could wrap around for lengths close to 2^64.
+	available := uint64(len(padded) - varintLen)
+	if msgLen > available {
 		return nil, fmt.Errorf(
 			"varint length %d exceeds available data (have %d bytes after prefix)",
-			msgLen, len(padded)-varintLen,
+			msgLen, available,
 		)
 	}
 
-	return padded[varintLen:end], nil
+	return padded[varintLen : varintLen+int(msgLen)], nil
 }
